@@ -12,6 +12,7 @@ from .common import HEADER, FOOTER, contract, extract_struct, extract_struct_pri
 
 def build():
     u = Unit("u8_writer_tail")
+    u.rlimit = 150  # the tail region is one long straight-line proof (measured: ~120M rlimit units, 9 s)
     u.raw("#![feature(allocator_api)]\n" + HEADER, "header")
     u.raw("use std::collections::{BTreeMap, HashSet};\nuse std::io::Write;\n", "glue")
     raw = u.source("src/cache/raw.rs")
@@ -81,128 +82,102 @@ def build():
     reg.replace_re(r"members\.extend\(c\.members\.into_values\(\)\.flat_map\(\|m\| m\.into_iter\(\)\)\);", "shim_extend_flatten(&mut members, c.members);", "R2",
                    why="Vec::extend(BTreeMap::into_values().flat_map(..)) behind a shim: appends the map's vectors in key order")
     reg.replace_re(r"members_by_params\.extend\(\s*c\.members_by_params\s*\.into_values\(\)\s*\.flat_map\(\|m\| m\.into_iter\(\)\),?\s*\);", "shim_extend_flatten(&mut members_by_params, c.members_by_params);", "R2")
-    # ghost set-up at the start of the region
+    # ghost set-up at the start of the region: `done` tracks the bytes delivered so far (relative to sunk0)
     reg.insert_at(0, """let ghost cs = vals(classes);
         let ghost nn = cs.len() as int;
         let ghost sunk0 = writer.inner.sunk();
         let ghost strs = table_bytes(string_table);
         let ghost canon = canonical(cs, strs);
         let ghost hb = hdr_bytes(header_of(cs, strs));
-        let ghost s1 = padded(hb);
         let ghost cb = classes_bytes(cs, nn);
         let ghost mb = members_bytes(all_members(cs, nn));
         let ghost pb = members_bytes(all_by_params(cs, nn));
-        proof { axiom_record_sizes(); lemma_classes_len(cs, nn); }
-        """)
-    T = "padded(cb) + padded(mb) + padded(pb) + strs"
-    reg.insert_before("writer.write_all(header.as_bytes())", """proof {
-            assert(header == header_of(cs, strs));
-            let rest = zeros(pad_len(24)) + padded(cb) + padded(mb) + padded(pb) + strs;
-            assert(canon =~= Seq::<u8>::empty() + hb + rest);
-            lemma_step(sunk0, Seq::empty(), hb, rest, canon);
-            assert(sunk0 + Seq::<u8>::empty() =~= sunk0);
+        let ghost mut done: Seq<u8> = Seq::empty();
+        let ghost z1 = zeros(pad_len(hb.len() as int)); let ghost z2 = zeros(pad_len(cb.len() as int));
+        let ghost z3 = zeros(pad_len(mb.len() as int)); let ghost z4 = zeros(pad_len(pb.len() as int));
+        let ghost p2 = Seq::<u8>::empty() + hb + z1;
+        proof {
+            axiom_record_sizes(); lemma_classes_len(cs, nn);
+            // the canonical layout as one left-nested concatenation; every cumulative prefix of it is a prefix of canon
+            assert(canon =~= Seq::<u8>::empty() + hb + z1 + cb + z2 + mb + z3 + pb + z4 + strs);
+            lemma_prefix_chain(canon, hb, z1, cb, z2, mb, z3, pb, z4, strs);
+            assert(sunk0 + done =~= sunk0);
         }
         """)
-    reg.insert_before("writer.pad_to_8()?;", """proof {
-            let rest = padded(cb) + padded(mb) + padded(pb) + strs;
-            assert(canon =~= hb + zeros(pad_len(24)) + rest);
-            lemma_pad_step(sunk0, hb, pad_len(24), rest, canon);
-            assert(writer.inner.sunk() =~= sunk0 + hb);
-            assert(pad_len(writer.offset as int) == pad_len(24));
-        }
-        """, occ=1)
+    # generic tracking of every `writer.write_all(X)?;` / `writer.pad_to_8()?;` statement, in whatever order they occur:
+    # before each one the obligation "what has been delivered plus this chunk is still a prefix of the canonical bytes".
+    import re
+    loops = reg.loops()
+    lo, hi = (loops[0][2], loops[0][3]) if loops else (-1, -1)
+    CHUNKS = [(r"header\.as_bytes\(\)", "hdr_bytes(header)"), (r"c\.class\.as_bytes\(\)", "class_bytes(c.class)"),
+              (r"&string_bytes", "string_bytes@"), (r"([a-z_]+)\.as_bytes\(\)", r"members_bytes(\1@)")]
+    for m in re.finditer(r"writer\s*\.\s*(write_all\((.*?)\)|pad_to_8\(\))\s*\?;", reg.orig, re.S):
+        inloop = lo < m.start() < hi
+        if m.group(1).startswith("pad_to_8"):
+            reg.insert_at(m.start(), """let ghost k_pad = pad_len(writer.offset as int);
+        proof { /*@L:padding_keeps_canonical_prefix:C15,C09,C10*/ assert(is_prefix_of(done + zeros(k_pad), canon)); lemma_track_pad(sunk0, done, k_pad, canon); }
+        """)
+            reg.insert_at(m.end(), """
+        proof { done = done + zeros(k_pad); assert(writer.inner.sunk() == sunk0 + done); assert(writer.offset as int == done.len() % 8); }""")
+        else:
+            arg = m.group(2).strip()
+            chunk = None
+            for pat, rep in CHUNKS:
+                mm = re.fullmatch(pat, arg)
+                if mm:
+                    chunk = mm.expand(rep)
+                    break
+            if chunk is None:
+                from vf.unit import AnchorLost
+                raise AnchorLost("write_all argument %r has no known byte image" % arg)
+            pre = ""
+            if inloop:
+                pre = """assert(c.class == emitted_class(cs, i));
+                lemma_classes_split(cs, i + 1, nn);
+                assert(p2 + cb =~= (p2 + classes_bytes(cs, i) + class_bytes(emitted_class(cs, i))) + classes_suffix(cs, i + 1, nn));
+                lemma_prefix_of_concat(p2 + classes_bytes(cs, i) + class_bytes(emitted_class(cs, i)), classes_suffix(cs, i + 1, nn));
+                lemma_prefix_trans(p2 + classes_bytes(cs, i) + class_bytes(emitted_class(cs, i)), p2 + cb, canon);
+                """
+            reg.insert_at(m.start(), """let ghost chunk = %s;
+        proof { %s/*@L:chunk_keeps_canonical_prefix:C15,C09,C10,C03,C02*/ assert(is_prefix_of(done + chunk, canon)); lemma_track_write(sunk0, done, chunk, canon); }
+        """ % (chunk, pre))
+            reg.insert_at(m.end(), """
+        proof { done = done + chunk; assert(writer.inner.sunk() == sunk0 + done); assert(writer.offset as int == done.len() %% 8); }""" % ())
+    reg.insert_before("writer.write_all(header.as_bytes())", "proof { assert(header == header_of(cs, strs)); }\n        ") if "writer.write_all(header.as_bytes())" in " ".join(reg.orig.split()) else None
     reg.for_to_loop(1, it_name="it", iter_expr="shim_into_values(classes)",
         after_decl="""let ghost mut n: int = 0;
-        proof { assert(cs.skip(0) == cs); assert(writer.inner.sunk() =~= sunk0 + (s1 + classes_bytes(cs, 0))); }
+        proof { assert(cs.skip(0) == cs); assert(done =~= p2 + classes_bytes(cs, 0)); }
 """,
         spec="""            invariant
                 it.obeys_prophetic_iter_laws(), it.decrease() is Some,
                 0 <= n <= nn, nn == cs.len(), cs.skip(n) == it.remaining(),
                 cs == vals(classes), strs == table_bytes(string_table), sunk0 == old(writer).inner.sunk(),
-                canon == canonical(cs, strs), hb == hdr_bytes(header_of(cs, strs)), s1 == padded(hb), hb.len() == 24,
+                canon == canonical(cs, strs), hb == hdr_bytes(header_of(cs, strs)), hb.len() == 24,
                 cb == classes_bytes(cs, nn), mb == members_bytes(all_members(cs, nn)), pb == members_bytes(all_by_params(cs, nn)),
-                writer.inner.sunk() == sunk0 + (s1 + classes_bytes(cs, n)),
-                writer.offset as int == (28 * n) % 8,
+                done == p2 + classes_bytes(cs, n), p2 == Seq::<u8>::empty() + hb + zeros(pad_len(hb.len() as int)), is_prefix_of(p2 + cb, canon),
+                writer.inner.sunk() == sunk0 + done,
+                writer.offset as int == done.len() % 8,
                 members@ == all_members(cs, n), members_by_params@ == all_by_params(cs, n),
             ensures n == nn,
             decreases it.decrease()->0,""",
         before_next="let ghost rem_before = it.remaining();\n",
         on_none="proof { assert(rem_before.len() == 0); }",
         after_next="""            let ghost i = n;
-            let ghost c_in = c;
             proof {
                 assert(rem_before.len() > 0);
                 assert(c == cs[n]);
                 assert(cs.skip(n).drop_first() == cs.skip(n + 1));
                 n = n + 1;
                 lemma_members_before(cs, i);
-                axiom_record_sizes(); lemma_classes_len(cs, i);
+                axiom_record_sizes(); lemma_classes_len(cs, i); lemma_classes_len(cs, nn);
             }
 """)
-    reg.insert_before("writer.write_all(c.class.as_bytes())", """proof {
-                assert(c.class == emitted_class(cs, i));
-                let ck = class_bytes(emitted_class(cs, i));
-                let done = s1 + classes_bytes(cs, i);
-                let rest = classes_suffix(cs, i + 1, nn) + zeros(pad_len(cb.len() as int)) + padded(mb) + padded(pb) + strs;
-                lemma_classes_split(cs, i, nn);
-                lemma_classes_suffix_head(cs, i, nn);
-                assert(canon =~= done + ck + rest);
-                lemma_step(sunk0, done, ck, rest, canon);
-                assert(done + ck =~= s1 + classes_bytes(cs, i + 1));
-                assert(members@ =~= all_members(cs, i + 1));
-                assert(members_by_params@ =~= all_by_params(cs, i + 1));
-            }
-            """)
-    reg.insert_before("writer.pad_to_8()?;", """proof {
-            let done = s1 + cb;
-            let rest = padded(mb) + padded(pb) + strs;
-            assert(canon =~= done + zeros(pad_len(cb.len() as int)) + rest);
-            lemma_pad_step(sunk0, done, pad_len(cb.len() as int), rest, canon);
-            assert(pad_len(writer.offset as int) == pad_len(cb.len() as int));
-        }
-        """, occ=2)
-    reg.insert_before("writer.write_all(members.as_bytes())", """proof {
-            let done = s1 + padded(cb);
-            let rest = zeros(pad_len(mb.len() as int)) + padded(pb) + strs;
-            assert(done =~= s1 + cb + zeros(pad_len(cb.len() as int)));
-            assert(writer.inner.sunk() =~= sunk0 + done);
-            assert(canon =~= done + mb + rest);
-            lemma_step(sunk0, done, mb, rest, canon);
-        }
+    # end of the loop body: the two vectors hold the records of the first n classes
+    if loops:
+        reg.insert_at(hi, """proof { assert(members@ =~= all_members(cs, n)); assert(members_by_params@ =~= all_by_params(cs, n));
+                assert(done =~= p2 + classes_bytes(cs, n)); }
         """)
-    reg.insert_before("writer.pad_to_8()?;", """proof {
-            let done = s1 + padded(cb) + mb;
-            let rest = padded(pb) + strs;
-            assert(writer.inner.sunk() =~= sunk0 + done);
-            assert(canon =~= done + zeros(pad_len(mb.len() as int)) + rest);
-            lemma_pad_step(sunk0, done, pad_len(mb.len() as int), rest, canon);
-            assert(pad_len(writer.offset as int) == pad_len(mb.len() as int));
-        }
-        """, occ=3)
-    reg.insert_before("writer.write_all(members_by_params.as_bytes())", """proof {
-            let done = s1 + padded(cb) + padded(mb);
-            let rest = zeros(pad_len(pb.len() as int)) + strs;
-            assert(writer.inner.sunk() =~= sunk0 + done);
-            assert(canon =~= done + pb + rest);
-            lemma_step(sunk0, done, pb, rest, canon);
-        }
-        """)
-    reg.insert_before("writer.pad_to_8()?;", """proof {
-            let done = s1 + padded(cb) + padded(mb) + pb;
-            assert(writer.inner.sunk() =~= sunk0 + done);
-            assert(canon =~= done + zeros(pad_len(pb.len() as int)) + strs);
-            lemma_pad_step(sunk0, done, pad_len(pb.len() as int), strs, canon);
-            assert(pad_len(writer.offset as int) == pad_len(pb.len() as int));
-        }
-        """, occ=4)
-    reg.insert_before("writer.write_all(&string_bytes)", """proof {
-            let done = s1 + padded(cb) + padded(mb) + padded(pb);
-            assert(writer.inner.sunk() =~= sunk0 + done);
-            assert(canon =~= done + strs + Seq::<u8>::empty());
-            lemma_step(sunk0, done, strs, Seq::empty(), canon);
-            assert(done + strs =~= canon);
-        }
-        """)
+    reg.insert_at(len(reg.orig) - len("Ok(())"), "proof { /*@L:everything_was_written:C15,C09,C10*/ assert(done =~= canon); }\n        ")
     u.emit(reg, prefix="""fn region_write_tail<'d, W: Write>(writer: &mut PaddedWriter<W>, string_table: StringTable, classes: BTreeMap<&'d str, ClassInProgress<'d>>) -> (ret: std::io::Result<()>)
     requires
         old(writer).offset == 0,
